@@ -258,3 +258,47 @@ theorem tie_BaseParam_setitem (g : Grp) (k : String) (v : Val) : Gen.BaseParam_s
   · rename_i h
     split at h <;> simp at h
   · rfl
+
+/-! ### the tree of parameter classes extracted from draw_params.py (`Gen.mpDrawParams`, the default `MPDrawParams()`)
+
+A finite table checked completely is a proof for that table: the statements below are decided by evaluation on the tree the
+translator read off the source of this run. -/
+
+theorem tree_allInit : Gen.mpDrawParams.allInit = true := by decide +kernel
+
+/-- Every parameter class of the tree has the three `BaseParam` fields that `__post_init__` propagates. -/
+theorem tree_base_fields_everywhere :
+    Gen.mpDrawParams.allDeclare "time_begin" = true ∧ Gen.mpDrawParams.allDeclare "time_end" = true ∧
+    Gen.mpDrawParams.allDeclare "antialiased" = true := by decide +kernel
+
+/-- Every path the selection logic reads (`flagsOf`) exists in the source's tree, with a value of the right kind, and the
+    defaults are the model's table. -/
+theorem tie_default_flags : flagsOf Gen.mpDrawParams = some defaultFlags := by decide +kernel
+
+/-- The five groups whose window a drawing function reads are groups of the source's tree. -/
+theorem tree_window_groups : ∀ p ∈ windowPaths, ∃ h, Gen.mpDrawParams.at p = some (.grp h) ∧
+    h.declares "time_begin" = true ∧ h.declares "time_end" = true := by
+  intro p hp
+  simp only [windowPaths, List.mem_cons, List.mem_nil_iff, or_false] at hp
+  rcases hp with rfl | rfl | rfl | rfl | rfl <;>
+    exact ⟨_, rfl, by decide +kernel, by decide +kernel⟩
+
+/-- Propagation over the source's tree: `params.time_begin = tb; params.time_end = te` on the default `MPDrawParams()`
+    makes `[tb, te)` the window of every drawing function and leaves every other flag at its default. -/
+theorem tree_window_reaches_drawing (atb ate : String) (tb te : Int)
+    (htb : parseInt atb = some tb) (hte : parseInt ate = some te) :
+    flagsOf ((Gen.mpDrawParams.set "time_begin" (.atom atb)).set "time_end" (.atom ate)) = some (withWindow defaultFlags tb te) :=
+  C19_window_reaches_drawing Gen.mpDrawParams tree_allInit atb ate tb te defaultFlags htb hte tie_default_flags
+
+/-- End to end on the source's tree and the source's drawing functions: after the two top-level assignments what
+    `draw_scenario` (as translated) draws is the model's `drawScenario` for the window `[tb, te)` with default flags. -/
+theorem tree_window_drawn (atb ate : String) (tb te : Int) (os : List Obst)
+    (htb : parseInt atb = some tb) (hte : parseInt ate = some te)
+    (envOcc : ∀ o ∈ os, o.role = .env → o.occ.mem tb = true) :
+    ∃ f, Gen.flagsOf ((Gen.mpDrawParams.set "time_begin" (.atom atb)).set "time_end" (.atom ate)) = some f ∧
+      Gen.draw_scenario f os = drawScenario (withWindow defaultFlags tb te) os := by
+  refine ⟨withWindow defaultFlags tb te, ?_, ?_⟩
+  · rw [tie_flagsOf]; exact tree_window_reaches_drawing atb ate tb te htb hte
+  · exact tie_draw_scenario _ os (by simpa [withWindow] using envOcc)
+
+end CR.T19
